@@ -162,6 +162,12 @@ SdfRecord(name, m) ==
   \o [i \in DOMAIN m.atoms |-> SdfAtomLine(m.atoms[i])]
   \o [j \in DOMAIN m.bonds |-> SdfBondLine(m.bonds[j])]
   \o <<MEND>>
+(* files of other programs carry property lines before "M  END"; the commonest is a charge list, "M  CHG  1 aaa vvv" - here the
+   charge -1 on the last atom of the block *)
+SdfChgLine(na) == <<77, 32, 32, 67, 72, 71>> \o I3(1) \o <<32>> \o I3(na) \o <<32, 32, 45, 49>>
+SdfRecordC(name, m, chg) ==
+  IF ~chg THEN SdfRecord(name, m)
+  ELSE SubSeq(SdfRecord(name, m), 1, Len(SdfRecord(name, m)) - 1) \o <<SdfChgLine(Len(m.atoms)), MEND>>
 (* ---- the writer as found at the pinned commit (deviations, used only by --explain) ---------- *)
 (* Molecule.to_sdf_string hands positions[:, 0] to the x, y and z fields; fmt/sdf.py to_atom_line *)
 (* puts a blank between the 10-wide fields; counts and bond atoms are printed with the blank-sign *)
@@ -183,12 +189,12 @@ SdfDataItem(k) == << <<62, 32, 60, 73, 68, 62>>, UIntDigits(k), <<>> >>
 RECURSIVE SdfFileFrom(_, _, _, _)
 SdfFileFrom(names, mols, style, k) ==
   IF k > Len(mols) THEN << <<>> >>
-  ELSE SdfRecord(names[k], mols[k]) \o (IF style.data THEN SdfDataItem(k) ELSE <<>>) \o <<DOLLARS>>
+  ELSE SdfRecordC(names[k], mols[k], style.chg) \o (IF style.data THEN SdfDataItem(k) ELSE <<>>) \o <<DOLLARS>>
        \o SdfFileFrom(names, mols, style, k + 1)
 SdfFile(names, mols, style) ==
   IF style.term THEN SdfFileFrom(names, mols, style, 1)
-  ELSE SdfRecord(names[1], mols[1]) \o (IF style.data THEN SdfDataItem(1) ELSE <<>>)
-SdfStyleValid(mols, style) == style.term \in BOOLEAN /\ style.data \in BOOLEAN /\ (style.term \/ Len(mols) = 1)
+  ELSE SdfRecordC(names[1], mols[1], style.chg) \o (IF style.data THEN SdfDataItem(1) ELSE <<>>)
+SdfStyleValid(mols, style) == style.term \in BOOLEAN /\ style.data \in BOOLEAN /\ style.chg \in BOOLEAN /\ (style.term \/ Len(mols) = 1)
 
 (* ---- splitting a file into records ------------------------------------ *)
 SdfSeps(lines) == {i \in DOMAIN lines : lines[i] = DOLLARS}
